@@ -16,7 +16,7 @@ import reftext
 PID = 'C06'
 FAM = {s.sid: s for s in S.family_F()}
 FAM['I1'] = Schema('I1', [Opt('func', 'include', '', None, 'i'), Opt('int', 'i', '', 5), Opt('str', 's', '', b'q'),
-                          Opt('sec', 'sec', '', sub=[Opt('int', 'x', '', 1)]), Opt('sec', 'm', 'M', sub=[Opt('int', 'x', '', 1)])])
+                          Opt('sec', 'sec', '', sub=[Opt('int', 'x', '', 1), Opt('func', 'include', '', None, 'i')]), Opt('sec', 'm', 'M', sub=[Opt('int', 'x', '', 1), Opt('func', 'include', '', None, 'i')])])
 USE = ['F01', 'F03', 'F05', 'F06', 'F07', 'F08', 'F09', 'F11', 'F13', 'F15', 'F16']
 SEPS = [b'\n', b'\n\n', b' # c\n', b' // c\n', b' /* c */ ', b' /* a\nb */ ', b' /* a *\n * b\n */ ']
 BATCH = 300
